@@ -20,15 +20,20 @@ type actRef struct {
 	lo, hi   float64
 	monotone bool
 	exact    bool // monotone without rounding slack
+	// polynomial: the definition is a short polynomial / comparison expression whose factored form is evaluated without
+	// cancellation (every step is exact or a single monotone rounding): the value is compared with a relative tolerance
+	// only, and monotonicity is exact. An algebraically equal but cancelling evaluation order is not the same function
+	// next to a zero of the polynomial.
+	polynomial bool
 }
 
 func sq(x float64) float64 { return x * x }
 
 var actRefs = map[int]actRef{
-	1: {"SigmoidPlainActivation", func(x float64) float64 { return 1 / (1 + math.Exp(-x)) }, 0, 1, true, false},
-	2: {"SigmoidReducedActivation", func(x float64) float64 { return 1 / (1 + math.Exp(-0.5*x)) }, 0, 1, true, false},
-	3: {"SigmoidBipolarActivation", func(x float64) float64 { return 2/(1+math.Exp(-4.924273*x)) - 1 }, -1, 1, true, false},
-	4: {"SigmoidSteepenedActivation", func(x float64) float64 { return 1 / (1 + math.Exp(-4.924273*x)) }, 0, 1, true, false},
+	1: {"SigmoidPlainActivation", func(x float64) float64 { return 1 / (1 + math.Exp(-x)) }, 0, 1, true, false, false},
+	2: {"SigmoidReducedActivation", func(x float64) float64 { return 1 / (1 + math.Exp(-0.5*x)) }, 0, 1, true, false, false},
+	3: {"SigmoidBipolarActivation", func(x float64) float64 { return 2/(1+math.Exp(-4.924273*x)) - 1 }, -1, 1, true, false, false},
+	4: {"SigmoidSteepenedActivation", func(x float64) float64 { return 1 / (1 + math.Exp(-4.924273*x)) }, 0, 1, true, false, false},
 	5: {"SigmoidApproximationActivation", func(x float64) float64 {
 		switch {
 		case x < -4:
@@ -39,7 +44,7 @@ var actRefs = map[int]actRef{
 			return 1 - sq(x-4)/32
 		}
 		return 1
-	}, 0, 1, true, false},
+	}, 0, 1, true, true, true},
 	6: {"SigmoidSteepenedApproximationActivation", func(x float64) float64 {
 		switch {
 		case x < -1:
@@ -50,18 +55,18 @@ var actRefs = map[int]actRef{
 			return 1 - sq(x-1)/2
 		}
 		return 1
-	}, 0, 1, true, false},
-	7:  {"SigmoidInverseAbsoluteActivation", func(x float64) float64 { return 0.5 + 0.5*(x/(1+math.Abs(x))) }, 0, 1, true, false},
-	8:  {"SigmoidLeftShiftedActivation", func(x float64) float64 { return 1 / (1 + math.Exp(-x-2.4621365)) }, 0, 1, true, false},
-	9:  {"SigmoidLeftShiftedSteepenedActivation", func(x float64) float64 { return 1 / (1 + math.Exp(-(4.924273*x + 2.4621365))) }, 0, 1, true, false},
-	10: {"SigmoidRightShiftedSteepenedActivation", func(x float64) float64 { return 1 / (1 + math.Exp(-(4.924273*x - 2.4621365))) }, 0, 1, true, false},
-	11: {"TanhActivation", func(x float64) float64 { return math.Tanh(0.9 * x) }, -1, 1, true, false},
-	12: {"GaussianBipolarActivation", func(x float64) float64 { return 2*math.Exp(-sq(2.5*x)) - 1 }, -1, 1, false, false},
-	13: {"GaussianActivation", func(x float64) float64 { return math.Exp(-sq(x)) }, 0, 1, false, false},
-	14: {"LinearActivation", func(x float64) float64 { return x }, math.Inf(-1), math.Inf(1), true, true},
-	15: {"LinearAbsActivation", func(x float64) float64 { return math.Abs(x) }, 0, math.Inf(1), false, false},
-	16: {"LinearClippedActivation", func(x float64) float64 { return math.Max(-1, math.Min(1, x)) }, -1, 1, true, true},
-	17: {"NullActivation", func(x float64) float64 { return 0 }, 0, 0, false, false},
+	}, 0, 1, true, true, true},
+	7:  {"SigmoidInverseAbsoluteActivation", func(x float64) float64 { return 0.5 + 0.5*(x/(1+math.Abs(x))) }, 0, 1, true, false, false},
+	8:  {"SigmoidLeftShiftedActivation", func(x float64) float64 { return 1 / (1 + math.Exp(-x-2.4621365)) }, 0, 1, true, false, false},
+	9:  {"SigmoidLeftShiftedSteepenedActivation", func(x float64) float64 { return 1 / (1 + math.Exp(-(4.924273*x + 2.4621365))) }, 0, 1, true, false, false},
+	10: {"SigmoidRightShiftedSteepenedActivation", func(x float64) float64 { return 1 / (1 + math.Exp(-(4.924273*x - 2.4621365))) }, 0, 1, true, false, false},
+	11: {"TanhActivation", func(x float64) float64 { return math.Tanh(0.9 * x) }, -1, 1, true, false, false},
+	12: {"GaussianBipolarActivation", func(x float64) float64 { return 2*math.Exp(-sq(2.5*x)) - 1 }, -1, 1, false, false, false},
+	13: {"GaussianActivation", func(x float64) float64 { return math.Exp(-sq(x)) }, 0, 1, false, false, false},
+	14: {"LinearActivation", func(x float64) float64 { return x }, math.Inf(-1), math.Inf(1), true, true, false},
+	15: {"LinearAbsActivation", func(x float64) float64 { return math.Abs(x) }, 0, math.Inf(1), false, false, false},
+	16: {"LinearClippedActivation", func(x float64) float64 { return math.Max(-1, math.Min(1, x)) }, -1, 1, true, true, false},
+	17: {"NullActivation", func(x float64) float64 { return 0 }, 0, 0, false, false, false},
 	18: {"SignActivation", func(x float64) float64 {
 		switch {
 		case x > 0:
@@ -70,14 +75,14 @@ var actRefs = map[int]actRef{
 			return -1
 		}
 		return 0
-	}, -1, 1, false, false},
-	19: {"SineActivation", func(x float64) float64 { return math.Sin(2 * x) }, -1, 1, false, false},
+	}, -1, 1, false, false, false},
+	19: {"SineActivation", func(x float64) float64 { return math.Sin(2 * x) }, -1, 1, false, false, false},
 	20: {"StepActivation", func(x float64) float64 {
 		if x < 0 {
 			return 0
 		}
 		return 1
-	}, 0, 1, true, true},
+	}, 0, 1, true, true, false},
 }
 
 var moduleNames = map[int]string{21: "MultiplyModuleActivation", 22: "MaxModuleActivation", 23: "MinModuleActivation"}
@@ -163,7 +168,11 @@ func CheckC18Scalar(c C18Scalar, rec *Rec) error {
 		if got < ref.lo || got > ref.hi {
 			return fmt.Errorf("%s(%v) = %v is outside the documented range [%v, %v]", ref.name, x, got, ref.lo, ref.hi)
 		}
-		if math.Abs(got-want) > 1e-12*(1+math.Abs(want)) {
+		tol := 1e-12 * (1 + math.Abs(want))
+		if ref.polynomial {
+			tol = 1e-12*math.Abs(want) + 5e-324
+		}
+		if math.Abs(got-want) > tol {
 			return fmt.Errorf("%s(%v) = %v but the definition gives %v", ref.name, x, got, want)
 		}
 	}
